@@ -167,7 +167,12 @@ package core
 // eventloop.open (C04, C18): the handler decides admission; what it returns is the first thing handed to the socket
 // of the new connection, and a refused client is closed without any reply.
 //@ func conn.open
-//@   flags trusted
+//@   flags trusted implcheck
+//@   props C01 C19
+//@   assume at call Write#0 :: obok(c, buf)
+//@   assert[impl.direct@C01,C19] at call Write#0 :: arg1 == buf
+//@   assert[impl.whole@C01,C19] at call Buffer.Write#0 :: arg1 == buf
+//@   assert[impl.leftover@C01,C19] at call Buffer.Write#1 :: 0 <= n && n < len(buf) && arg1 == buf[n:]
 //@   modifies c.wcount, c.wlog, elastic.Buffer.pending, elastic.RingBuffer.rb, ring.Buffer.buf, ring.Buffer.size, ring.Buffer.r, ring.Buffer.w, ring.Buffer.isEmpty
 //@   modifies linkedlist.Buffer.head, linkedlist.Buffer.tail, linkedlist.Buffer.size, linkedlist.Buffer.bytes, linkedlist.node.next, linkedlist.node.buf
 //@   ensures result == nil ==> c.wcount == old(c.wcount) + 1 && c.wlog[old(c.wcount)] == buf
